@@ -404,12 +404,16 @@ def addSource (m : List (Name Ã— Cov)) (file : Name) (s : SrcAcc) : List (Name Ã
 /-- `format!("{}/{}", package, file).trim_start_matches('/')` -/
 def outPath (package file : Name) : Name := (package ++ cSlash :: file).dropWhile (Â· = cSlash)
 
-/-- `get_xml_attribute(.., "sourcefilename").unwrap_or(format!("{}.java", top_class))`: any
-failure of the lookup (absent, attribute syntax error before it, bad entity) selects the fallback -/
-def sourceFileOf (a : List Attr) (top : Name) : Name :=
+/-- `match get_xml_attribute(.., "sourcefilename") { Ok(f) => f, Err(InvalidRecord(_)) =>
+format!("{}.java", top_class), Err(e) => return Err(e) }` (since /repo 276971e; before,
+`.unwrap_or(..)` swallowed every error): an ABSENT attribute selects the fallback, an attribute that
+is there but cannot be read (attribute syntax error before it, bad entity; in the real code also a
+value that is not valid UTF-8) rejects the report -/
+def sourceFileOf (a : List Attr) (top : Name) : Except ErrKind Name :=
   match getAttr sSourcefilename a with
-  | .ok f => f
-  | .error _ => top ++ sDotJava
+  | .ok f => .ok f
+  | .error .invalidRecord => .ok (top ++ sDotJava)
+  | .error k => .error k
 
 /-- `parse_jacoco_report_package` (`Eof` â‡’ `Parse` error); the state is `results_map` in insertion order
 (the real order is the `FxHashMap` iteration order: results are compared as sorted lists) -/
@@ -425,12 +429,14 @@ def packageLoop (cap : Nat) (package : Name) : Nat â†’ List XmlEvent â†’ List (N
         | .ok fq =>
           let cls := afterLast cSlash fq
           let top := beforeFirst cDollar cls
-          let file := sourceFileOf a top
-          (match classLoop cls fuel r [] with
-           | .ok (fns, r') => packageLoop cap package fuel r' (addClass m file fns)
-           | .err k => .err k
-           | .alloc => .alloc
-           | .diverge => .diverge)
+          (match sourceFileOf a top with
+           | .ok file =>
+             (match classLoop cls fuel r [] with
+              | .ok (fns, r') => packageLoop cap package fuel r' (addClass m file fns)
+              | .err k => .err k
+              | .alloc => .alloc
+              | .diverge => .diverge)
+           | .error k => .err k)
         | .error k => .err k
       else if localName n = sSourcefile then
         match getAttr sName a with
